@@ -26,8 +26,12 @@ DEFAULT_OPTS = {
   "translatable": False,     # stay inside what the RTLIR type checker / translators accept
   "no_sext_compound": False, # exclusion switch for the known finding "sext of a compound operand"
   "index_chain": 1,          # 0..7: how often (in 1/8) a component gets an explicit "list[ sel ] + slice/field" chain
+  "ifcs": False,             # interface instances (bundles of in/out ports declared by an Interface class)
+  "conn_bias": 0,            # 0..3: extra weight for driving a new part through a connection instead of a block
   "struct_bias": 0,          # 0..4: how often a new signal gets a struct type
   "min_depth": 0,
+  "deep_rel": 1,             # 0..7: how often (in 1/8) a signal step builds a "driven only far below, read in between" chain
+  "child_lists": True,       # lists of child components: s.cl3 = [ C1() for _ in range(n) ]
   "child_bias": 0,           # extra weight for instantiating children in a step
   "ff_heavy": False,         # C07: many registers, one ff block per register, ff blocks read each other's registers
 }
@@ -60,6 +64,8 @@ class ClassBuilder:
     self.ports, self.wires, self.children, self.conns, self.blocks, self.uu = [], [], [], [], [], []
     self.avail = []            # [(ref-without-slice, type)] readable sources (whole signals / child outs)
     self.n = 0
+    self.ifc_insts = []        # [[attr, IfcName]]
+    self.ifc_pool = {}         # IfcName -> [[member, dir, type]]
     self.lists = []            # [(inst, base, count, elemtype)] lists of signals readable with an index
     self.consts = []           # [[name, int | ["const", w, v]]] closure constants
     self.regs = []
@@ -455,12 +461,13 @@ class ClassBuilder:
     blk_parts = []
     for ref, w, pt in parts:
       how = d(st.integers(0, 4))
+      if how >= 2 and how - 2 < self.opts["conn_bias"]: how = 0
       if (self.opts["lambdas"] and how == 1 and pt[0] == "b" and not ref["inst"] and not ref["fld"] and
           ref["sl"] is None and "[" not in ref["sig"] and d(st.booleans())):
         e = self.expr(w, {"tmps": [], "lv": [], "maxd": 2})
         if not _is_constant(e) and _mentions_signal(e):
           # (a lambda whose body never mentions `s` cannot be turned into an update block by pymtl3)
-          self.blocks.append({"name": "lam:" + ref["sig"], "kind": "comb", "lambda": True,
+          self.blocks.append({"name": "lam:" + ref["sig"].replace(".", "_"), "kind": "comb", "lambda": True,
                               "stmts": [["assign", ref, e]]})
           continue
       if how == 0 and pt[0] == "b":
@@ -573,8 +580,65 @@ class ClassBuilder:
     self.avail.append((mkref(n), ["b", w]))
     return True
 
+  def _conn_bits(self, ref, w):
+    """drives a Bits part through a connection: an available source of that width, a slice of a wider one, or a constant"""
+    d = self.draw
+    cands = self.bits_sources()
+    exact = [s_ for s_ in cands if s_[1] == w]
+    wider = [s_ for s_ in cands if s_[1] > w]
+    j = d(st.integers(0, 5))
+    if exact and j <= 3:
+      self.conns.append([ref, d(st.sampled_from(exact))[0]])
+    elif wider and j <= 4:
+      r, sw = d(st.sampled_from(wider))
+      lo = d(st.integers(0, sw - w))
+      r = dict(r); r["sl"] = [lo, lo + w]
+      self.conns.append([ref, r])
+    else:
+      self.conns.append([ref, ["const", w, d(st.integers(0, (1 << w) - 1))]])
+
+  def step_deep_relative(self):
+    """a signal whose only drivers are nets that end two or more levels below it (fields of a nested struct field,
+    slices of a struct field), while an intermediate level (the nested struct / the field) feeds another net as its
+    writer: the intermediate object is a writer only because relatives below it are driven"""
+    d = self.draw
+    wa, wb, wr = d(st.integers(2, 6)), d(st.integers(1, 4)), d(st.integers(1, 4))
+    inner = ["s", "DI", [["a", ["b", wa]], ["b", ["b", wb]]]]
+    outer = ["s", "DO", [["p", inner], ["r", ["b", wr]]] if d(st.booleans()) else [["r", ["b", wr]], ["p", inner]]]
+    y = self.new_signal(outer, force_wire=d(st.booleans()))
+    variant = d(st.sampled_from(["struct_mid", "bits_mid", "both"]))
+    k = d(st.integers(1, wa - 1))
+    if variant == "struct_mid":
+      leaves = [(mkref(y, fld=["p", "a"]), wa), (mkref(y, fld=["p", "b"]), wb)]
+      if d(st.booleans()):
+        leaves = [(mkref(y, fld=["p", "a"], sl=[0, k]), k), (mkref(y, fld=["p", "a"], sl=[k, wa]), wa - k), leaves[1]]
+      mids = [(mkref(y, fld=["p"]), inner)]
+      rest = []
+    else:
+      leaves = [(mkref(y, fld=["p", "a"], sl=[0, k]), k), (mkref(y, fld=["p", "a"], sl=[k, wa]), wa - k)]
+      mids = [(mkref(y, fld=["p", "a"]), ["b", wa])]
+      if variant == "both":
+        leaves.append((mkref(y, fld=["p", "b"]), wb))
+        mids.append((mkref(y, fld=["p"]), inner))
+        rest = []
+      else:
+        rest = [(mkref(y, fld=["p", "b"]), wb, ["b", wb])]
+    for ref, w in leaves: self._conn_bits(ref, w)
+    rest.append((mkref(y, fld=["r"]), wr, ["b", wr]))
+    self.drive(rest)
+    new = []
+    for mref, mt in mids:
+      z = self.new_signal(mt)
+      self.conns.append([mkref(z), mref])
+      new.append((mkref(z), mt))
+    self.avail.append((mkref(y), outer))
+    self.avail.extend(new)
+
   def step_signals(self):
     d = self.draw
+    if self.opts["structs"] is True and not self.opts["sloppy"] and not self.opts["translatable"] and \
+       d(st.integers(0, 7)) < self.opts["deep_rel"]:
+      return self.step_deep_relative()
     if self.opts["structs"] and not self.opts["sloppy"] and d(st.integers(0, 7)) == 0 and self.step_pack():
       return
     if self.opts["lists"] and d(st.integers(0, 5)) == 0:
@@ -595,7 +659,16 @@ class ClassBuilder:
     if self.depth <= 0 or not self.pool: return self.step_signals()
     cname = d(st.sampled_from(sorted(self.pool)))
     c = self.pool[cname]
-    iname = self.fresh("c")
+    if self.opts["child_lists"] and d(st.integers(0, 3)) == 0:
+      # s.cl5 = [ C1() for _ in range(n) ]: instances named cl5[0], cl5[1], ...
+      base = self.fresh("cl")
+      for i in range(d(st.integers(2, 3))):
+        self._one_child(f"{base}[{i}]", cname, c)
+      return
+    self._one_child(self.fresh("c"), cname, c)
+
+  def _one_child(self, iname, cname, c):
+    d = self.draw
     self.children.append([iname, cname])
     parts = []
     for n, dr, t in c["ports"]:
@@ -637,6 +710,17 @@ class ClassBuilder:
         n = base + "".join(f"[{i}]" for i in idx)
         self.ports.append([n, "in", t]); self.avail.append((mkref(n), t))
       self.lists.append(("", base, dims, t))
+    pending_ifc_outs = []
+    if o["ifcs"] and self.ifc_pool and d(st.integers(0, 2)) == 0:
+      for _ in range(d(st.integers(1, 2))):
+        iname = d(st.sampled_from(sorted(self.ifc_pool)))
+        attr = self.fresh("ifc")
+        self.ifc_insts.append([attr, iname])
+        for mn, md, mt in self.ifc_pool[iname]:
+          n = f"{attr}.{mn}"
+          self.ports.append([n, md, mt])
+          if md == "in": self.avail.append((mkref(n), mt))
+          else: pending_ifc_outs.append((n, mt))
     if o["reset"] and d(st.integers(0, 3)) == 0:
       self.avail.append((mkref("reset"), ["b", 1]))
     # registers (available from the start)
@@ -653,6 +737,9 @@ class ClassBuilder:
       else: self.step_signals()
     if o["lists"] and not o["sloppy"] and d(st.integers(0, 7)) < o["index_chain"]:
       self.index_chain()
+    for n, mt in pending_ifc_outs:                 # output members of the component's own interfaces
+      self.drive(self.parts_of(n, mt))
+      self.avail.append((mkref(n), mt))
     # ff blocks, created last so they may read everything
     self.regs = regs
     if regs:
@@ -666,7 +753,8 @@ class ClassBuilder:
       n = self.fresh("out"); self.ports.append([n, "out", t])
       self.drive([(mkref(n), type_width(t), t)])
     return {"ports": self.ports, "wires": self.wires, "children": self.children,
-            "conns": self.conns, "blocks": self.blocks, "uu": self.uu, "consts": self.consts}
+            "conns": self.conns, "blocks": self.blocks, "uu": self.uu, "consts": self.consts,
+            "ifc_insts": self.ifc_insts}
 
 
 def _mentions_signal(e):
@@ -765,6 +853,16 @@ def designs(draw, **kw):
   opts = dict(DEFAULT_OPTS); opts.update(kw)
   pool = {}
   classes = {}
+  ifc_pool = {}
+  if opts["ifcs"]:
+    for k in range(draw(st.integers(1, 2))):
+      members = []
+      for j in range(draw(st.integers(1, 3))):
+        t = ["b", W(draw, opts)]
+        if opts["structs"] is True and draw(st.integers(0, 3)) == 0: t = small_struct(draw)
+        members.append([draw(st.sampled_from(["msg", "val", "rdy", "en", "ret", "data"])) + str(j),
+                        draw(st.sampled_from(["in", "out"])), t])
+      ifc_pool[f"Ifc{k}"] = members
   # leaf classes first, then classes that may instantiate earlier ones
   levels = draw(st.integers(min(opts["min_depth"], opts["max_depth"]), opts["max_depth"]))
   idx = 0
@@ -774,9 +872,11 @@ def designs(draw, **kw):
       name = f"C{idx}"
       sub = dict(opts); sub["max_steps"] = max(1, opts["max_steps"] // 2)
       cb = ClassBuilder(draw, name, sub, dict(pool) if lvl > 0 else {}, lvl)
+      cb.ifc_pool = ifc_pool
       classes[name] = cb.build(False)
       pool[name] = classes[name]
   cb = ClassBuilder(draw, "Top", opts, pool, levels)
+  cb.ifc_pool = ifc_pool
   classes["Top"] = cb.build(True)
   # drop classes never instantiated
   used = set()
@@ -786,7 +886,10 @@ def designs(draw, **kw):
     used.add(cn)
     for _, c in classes[cn]["children"]: visit(c)
   visit("Top")
-  return {"classes": {k: v for k, v in classes.items() if k in used}, "top": "Top"}
+  out = {"classes": {k: v for k, v in classes.items() if k in used}, "top": "Top"}
+  used_ifcs = {i for c in out["classes"].values() for _, i in c.get("ifc_insts", [])}
+  if used_ifcs: out["ifcs"] = {k: v for k, v in ifc_pool.items() if k in used_ifcs}
+  return out
 
 
 @st.composite
@@ -806,3 +909,14 @@ def input_seqs(draw, design, ncycles=None):
     seq.append({"in": cur, "reset": 1 if (c == 0 and draw(st.booleans())) or draw(st.integers(0, 9)) == 0 else 0})
     prev = cur
   return seq
+
+
+def features(design):
+  """structural features of a generated design, for the evidence labels"""
+  out = set()
+  for c in design["classes"].values():
+    if any("[" in i for i, _ in c["children"]): out.add("has_list_of_components")
+    if c.get("ifc_insts"): out.add("has_interface")
+    if any(b.get("lambda") for b in c["blocks"]): out.add("has_lambda_connection")
+    if any("[" in n for n, _, _ in c["ports"]) or any("[" in n for n, _ in c["wires"]): out.add("has_signal_list")
+  return sorted(out)
